@@ -1,8 +1,19 @@
 ----------------------------- MODULE LiveSql_MC -----------------------------
+(* M1 for C07: all interleavings of writes, garbling, delivery and the steps of  *)
+(* 2-3 live queries over a two-row universe.                                    *)
 EXTENDS LiveSql
-Q2 == {"q1", "q2"}
-None == [x \in {} |-> x]
-F2 == [q \in Q2 |-> IF q = "q1" THEN [org |-> "1"] ELSE None]
+CONSTANTS Filter
 Q3 == {"q1", "q2", "q3"}
-F3 == [q \in Q3 |-> IF q = "q1" THEN [org |-> "1"] ELSE IF q = "q2" THEN [id |-> "2"] ELSE [org |-> "2", id |-> "1"]]
+None == [x \in {} |-> x]
+V(x) == [v |-> x, rep |-> "int64"]
+F2 == [q \in {"q1", "q2"} |-> IF q = "q1" THEN [org |-> V("1")] ELSE None]
+F3 == [q \in Q3 |-> IF q = "q1" THEN [org |-> V("1")] ELSE IF q = "q2" THEN [id |-> V("2")] ELSE [org |-> V("2"), id |-> V("1")]]
+Init == /\ filt = Filter
+        /\ table \in {None} \cup UNION {{[j \in {i} |-> Row(i, v)] : v \in Vals} : i \in Ids}
+        /\ log = <<>>
+        /\ pc = [q \in Queries |-> "idle"] /\ ndep = [q \in Queries |-> 0] /\ cur = [q \in Queries |-> FALSE]
+        /\ held = [q \in Queries |-> {}] /\ dirty = [q \in Queries |-> TRUE]
+        /\ nw = 0 /\ nbad = 0
+Spec == Init /\ [][Next]_vars /\ Fair
+Bounded == \A q \in Queries : ndep[q] <= 2
 =============================================================================
